@@ -1,1 +1,92 @@
-(* placeholder, being written *)
+(* Mgr/Reattach.v — imb_set_pointers_mb_mgr(mem_ptr, flags, reset_mgr) of lib/x86_64/alloc.c
+   (property C16: re-attaching to a manager block without resetting it).  Definitions only.
+
+   The statement list [set_pointers_steps], the switch on used_arch, ooo_mgr_table and the
+   alignment constants are regenerated from alloc.c on every run (Gen/GenReset.v).
+
+   Address spaces are not modelled: OOO images are keyed by IMB_MGR field, which presumes what the
+   property presumes — the block is mapped at the same address, so the recomputed pointers denote
+   the same memory.  What a pointer cached inside manager memory would do after the library moved
+   is outside this model (see [ptr_class] and the K5 harness). *)
+From Coq Require Import NArith ZArith List String Bool.
+From IMB Require Import Gen.GenConsts Gen.GenLayout Gen.GenReset Mgr.Ring Mgr.Reset.
+Import ListNotations.
+Local Open Scope N_scope.
+
+(* cumulative aligned sizes: byte offset of every OOO manager inside the block *)
+Fixpoint cum_offsets (l : list ooo_entry) (off : N) : list (string * N) :=
+  match l with
+  | [] => []
+  | e :: t => (oe_field e, off) :: cum_offsets t (off + oe_asize e)
+  end.
+
+Definition ooo_offsets : list (string * N) := cum_offsets ooo_mgr_table first_ooo_off.
+
+Definition ptr_offset (field : string) : option N :=
+  option_map snd (find (fun p => String.eqb (fst p) field) ooo_offsets).
+
+Definition total_ooo_size : N := fold_left (fun a e => a + oe_asize e) ooo_mgr_table 0.
+(* imb_get_mb_mgr_size() *)
+Definition mb_mgr_size : N := SIZEOF_IMB_MGR_N + total_ooo_size + mgr_size_slack.
+
+Definition zeroed : mgr := mkmgr zero_ring 0 0 0 0 None (fun _ => 0) (fun _ => zero_img).
+
+Definition sp_run (cpu flags base : N) (reset : bool) (s : mgr) (st : sp_step) : mgr :=
+  match st with
+  | SpIfReset cases =>
+      if reset then zeroed        (* memset(mem_ptr, 0, mem_size) *)
+      else match find (fun c => fst (fst c) =? m_arch s) cases with
+           | Some (_, name, k) =>
+               match find_arch name with
+               | Some a => arch_init_run cpu a (negb (k =? 0)) s     (* init_mb_mgr_<arch>_internal(ptr, k) *)
+               | None => s
+               end
+           | None => s              (* default: break *)
+           end
+  | SpErrno0 => mgr_errno 0%Z s
+  | SpFlags => with_flags flags s
+  | SpFeatures => with_features (feature_adjust flags cpu) s
+  | SpPtrs => with_ptrs (fun f => match ptr_offset f with Some o => base + o | None => m_ptrs s f end) s
+  | SpRoadBlocks =>
+      with_ooo (fun f => match table_entry f with
+                         | Some e => run_prims (store_prims (oe_rb_off e) 8 0 OOO_ROAD_BLOCK) (m_ooo s f)
+                         | None => m_ooo s f
+                         end) s
+  end.
+
+Definition set_pointers (cpu flags base : N) (reset : bool) (s : mgr) : mgr :=
+  fold_left (sp_run cpu flags base reset) set_pointers_steps s.
+
+(* imb_set_pointers_mb_mgr(ptr, flags, 0) on a block that holds a live manager *)
+Definition reattach (cpu flags base : N) (s : mgr) : mgr := set_pointers cpu flags base false s.
+(* alloc_mb_mgr(flags): imb_set_pointers_mb_mgr(fresh memory, flags, 1) *)
+Definition alloc (cpu flags base : N) (garbage : mgr) : mgr := set_pointers cpu flags base true garbage.
+
+(* arch id handled by a case of the switch -> the arch_init it calls *)
+Definition switch_cases : list (N * string * N) :=
+  flat_map (fun st => match st with SpIfReset cs => cs | _ => [] end) set_pointers_steps.
+
+(* ------------------------------------------------------------------ pointer provenance *)
+(* Classification of every pointer-typed field of the OOO manager structs (Gen/GenLayout.v) by what
+   it points to while a job is parked: memory the caller owns (message, key schedules, IV), or the
+   manager block itself (IMB_JOB slots of jobs[]).  Nothing may point into the library image: a
+   re-attaching process has the library at another address.  By field name, from reading the
+   submit/flush routines; the K5 harness checks the classification on live managers at every
+   crash point (every non-NULL pointer leaf must lie inside the shared region). *)
+Inductive pclass := PCaller | PManager | PLibrary.
+
+Definition ptr_class (stype path : string) : option pclass :=
+  if existsb (String.eqb path) ["args.in"; "args.out"; "args.keys"; "args.iv"; "args.data_ptr"; "args.last_in"; "args.last_out"]%string
+  then Some PCaller
+  else if existsb (String.eqb path) ["job_in_lane"; "ldata[].job_in_lane"]%string then Some PManager
+  else None.
+
+Definition leaf_ptr_ok (stype : string) (l : leaf) : bool :=
+  match l_kind l with
+  | KPtr => match ptr_class stype (l_path l) with Some PCaller | Some PManager => true | _ => false end
+  | KFnPtr => false
+  | _ => true
+  end.
+
+(* function-pointer fields of IMB_MGR that init does not own *)
+Definition user_fnptrs : list string := ["self_test_cb_fn"%string].
